@@ -35,7 +35,7 @@ var subIngest = evid.Register("ingest", runIngest)
 func TestPropIngestProducer(t *testing.T) {
 	rapid.Check(t, func(t *rapid.T) {
 		c := Case{
-			Table: gen.GenTable(t, gen.TableOpts{MaxCols: 5, MaxRows: evid.Scale(800, 1100), Boundary: true, MaxBig: 1}, "t"),
+			Table: gen.GenTable(t, gen.TableOpts{MaxCols: 5, MaxRows: evid.Scale(800, 1100), Boundary: true, MaxBig: 3}, "t"),
 			Cfg:   ingestx.GenConfig(t, "cfg"),
 		}
 		subIngest.Check(t, c)
